@@ -44,6 +44,7 @@ def run(ctx, res):
         eff = base.editor_effects(lib)
         pure = {e['name'] for e in eff.values()}
         ses, words, I = session.process_byte_words(lib)
+        words = session.shaped(words)      # flushes are C15's; an empty text skipped = an empty write
         mutators = {'E.' + e['name'] for e in eff.values()}
         for key, ws in words.items():
             for word, status in ws:
